@@ -104,6 +104,12 @@ def process_unit(u, pid, scratch, tier, keep_dir=None):
         return r
     fidx = V.fn_index(text)
     item_by_fn = {i['verus_fn']: i for i in info['items']}
+    # per item: the properties named by at least one clause tag of its contract/body.  A property listed on the item but on none
+    # of its clauses depends on the WHOLE contract (it is used through a restated/assumed contract elsewhere): any failed clause counts.
+    tagged = {}
+    for m in smap:
+        if m.get('item') and m.get('clause_props'):
+            tagged.setdefault(m['item'], set()).update(m['clause_props'])
     vac_fns = {i['vacuity_fn']: i for i in info['items'] if i.get('vacuity_fn')}
     reach_fns = {i['reach_fn']: i for i in info['items'] if i.get('reach_fn')}
 
@@ -190,6 +196,7 @@ def process_unit(u, pid, scratch, tier, keep_dir=None):
             it = item_by_fn[short]
             ob['kind'] = 'item'
             ob['props'] = it['props']
+            ob['tagged_props'] = sorted(tagged.get(it['id'], set()))
             ob['real'] = '%s:%d' % (it['file'], it['line'])
         else:
             o = None
@@ -238,6 +245,9 @@ def diag_relevant(dg, pid, ob):
     cp = dg.get('_clause_props')
     if cp:
         if pid in cp:
+            return True
+        # pid is served by this item only as a dependency (no clause of the item names it): every clause matters
+        if ob.get('kind') == 'item' and pid in ob.get('props', []) and pid not in ob.get('tagged_props', [pid]):
             return True
         # safety-kind diagnostics are always charged to C12 when the function serves C12
         return pid == 'C12' and V.is_safety(dg['message']) and 'C12' in ob.get('props', [])
@@ -428,8 +438,10 @@ def run_property(pid, tier, keep=False, seed=0):
             'wall_s': round(time.time() - t0, 2),
             'violations': len(violations),
         }
-        os.makedirs(os.path.join(VERIF, 'evidence'), exist_ok=True)
-        json.dump(ev, open(os.path.join(VERIF, 'evidence', pid + '.json'), 'w'), indent=1)
+        # evidence/<id>.json always describes a run against /repo itself; runs against another tree (VERIF_REPO) go to _gen/
+        evdir = os.path.join(VERIF, 'evidence') if os.path.realpath(REPO) == '/repo' else os.path.join(VERIF, '_gen', 'evidence-other-tree')
+        os.makedirs(evdir, exist_ok=True)
+        json.dump(ev, open(os.path.join(evdir, pid + '.json'), 'w'), indent=1)
         if rc == 0:
             log('OK property=%s tier=%s obligations=%d discharged=%d bounded=%d units=%s wall=%.1fs' % (
                 pid, tier, len(counted), len(proved), len(bounded), ','.join(r['unit'] for r in results), time.time() - t0))
